@@ -796,3 +796,85 @@ Proof.
   apply ha_hgrp_member_receives_only_with_credentials_partial.
   apply ha_hgrp_run_inv, ha_grp_inv_nil.
 Qed.
+
+(* ================================================================================================ *)
+(* Muxer.handle under concurrent close / register / accept *)
+From FRP Require Import Model.HttpAuthMuxRace.
+
+(* the listener a connection waits for, or was delivered to, is one its credentials were checked against *)
+Definition ha_mrace_inv (rq : ha_req) (c : ha_mconn) : Prop :=
+  match c with
+  | MCNew rq' => rq' = rq
+  | MCHandover l _ | MCDelivered l => ha_mux_creds l = None \/ ha_mux_creds l = Some (ha_mux_presented rq)
+  | MCClosed | MCRefused _ => True
+  end.
+
+Lemma ha_mrace_step_inv canon pt rq s a :
+  ha_mrace_inv rq (ms_conn s) -> ha_mrace_inv rq (ms_conn (ha_mrace_step canon pt s a)).
+Proof.
+  intros H. destruct a as [|id|id|r]; cbn.
+  - destruct (ms_conn s) as [rq'| | | |] eqn:E; try (rewrite E; exact H). cbn in H. subst rq'.
+    destruct (ha_mux_handle _ _ _ _) as [| |x|l ok] eqn:Em; cbn; auto.
+    eapply ha_mux_forward_implies_credentials; eauto.
+  - destruct (ms_conn s) as [|l ok| | |] eqn:E; try (rewrite E; exact H).
+    destruct (rt_id l =? id); cbn; [exact H|rewrite E; exact H].
+  - destruct (ms_conn s) as [|l ok| | |]; try exact H. destruct (rt_id l =? id); cbn; auto.
+  - destruct (ha_mrace_conflict (ms_tbl s) r); cbn; exact H.
+Qed.
+
+Lemma ha_mrace_run_inv canon pt rq sched : forall s,
+  ha_mrace_inv rq (ms_conn s) -> ha_mrace_inv rq (ms_conn (ha_mrace_run canon pt s sched)).
+Proof.
+  unfold ha_mrace_run. induction sched as [|a t IH]; intros s H; cbn; [exact H|].
+  apply IH. now apply ha_mrace_step_inv.
+Qed.
+
+(* for every schedule of handle steps, accepts, listener closes and registrations, from any table: the connection is
+   delivered only to a listener that demands no credentials or exactly those the CONNECT presented *)
+Theorem ha_mrace_delivered_only_to_checked_listener canon pt tbl rq sched l :
+  ms_conn (ha_mrace_run canon pt {| ms_tbl := tbl; ms_conn := MCNew rq |} sched) = MCDelivered l ->
+  ha_mux_creds l = None \/ ha_mux_creds l = Some (ha_mux_presented rq).
+Proof.
+  intros H. pose proof (ha_mrace_run_inv canon pt rq sched {| ms_tbl := tbl; ms_conn := MCNew rq |} eq_refl) as Hi.
+  rewrite H in Hi. exact Hi.
+Qed.
+
+(* one decision per connection: after the hand-over failed (or handle refused) nothing is ever delivered *)
+Lemma ha_mrace_final_stays canon pt sched : forall s,
+  (ms_conn s = MCClosed \/ exists o, ms_conn s = MCRefused o) ->
+  ms_conn (ha_mrace_run canon pt s sched) = ms_conn s.
+Proof.
+  unfold ha_mrace_run. induction sched as [|a t IH]; intros s H; cbn; [reflexivity|].
+  assert (ms_conn (ha_mrace_step canon pt s a) = ms_conn s) as E.
+  { destruct a as [|id|id|r]; cbn; destruct H as [H|[o H]]; rewrite ?H; try reflexivity;
+      try (destruct (ha_mrace_conflict (ms_tbl s) r); cbn; rewrite ?H; reflexivity). }
+  rewrite IH; [exact E|]. rewrite E. exact H.
+Qed.
+
+(* the routed listener is closed while the connection waits for it: the connection is closed, whatever else covers
+   the host now or registers later *)
+Theorem ha_mrace_closed_listener_closes_connection canon pt tbl l ok sched :
+  ms_conn (ha_mrace_run canon pt {| ms_tbl := tbl; ms_conn := MCHandover l ok |} (MACloseListener (rt_id l) :: sched)) = MCClosed.
+Proof.
+  change (ha_mrace_run canon pt {| ms_tbl := tbl; ms_conn := MCHandover l ok |} (MACloseListener (rt_id l) :: sched))
+    with (ha_mrace_run canon pt (ha_mrace_step canon pt {| ms_tbl := tbl; ms_conn := MCHandover l ok |} (MACloseListener (rt_id l))) sched).
+  rewrite ha_mrace_final_stays; cbn; rewrite Z.eqb_refl; auto.
+Qed.
+
+(* the facts translator unit t7 reads off Muxer.handle *)
+Definition ha_muxer_facts_expected : list (string * Z) :=
+  [("lookups"%string, 1); ("accept_sends"%string, 1); ("accept_sends_on_lookup_result"%string, 1); ("other_sends"%string, 0);
+   ("credential_checks"%string, 1); ("credential_checks_on_lookup_result"%string, 1);
+   ("handover_failure_closes_and_ends"%string, 1)].
+Fixpoint ha_facts_eqb (a b : list (string * Z)) : bool :=
+  match a, b with
+  | [], [] => true
+  | (k, v) :: a', (k', v') :: b' => String.eqb k k' && (v =? v') && ha_facts_eqb a' b'
+  | _, _ => false
+  end.
+Lemma ha_facts_eqb_eq a : forall b, ha_facts_eqb a b = true -> a = b.
+Proof.
+  induction a as [|[k v] a IH]; intros [|[k' v'] b]; cbn; try discriminate; [reflexivity|].
+  rewrite !andb_true_iff. intros [[H1 H2] H3]. apply String.eqb_eq in H1. apply Z.eqb_eq in H2.
+  apply IH in H3. now subst.
+Qed.
